@@ -21,7 +21,7 @@ func init() {
 			"E4 a sliding delete passed (or deferred) on every exit of the operation that inserts, E5 consume-by-job with the mark also cleared when the job is withdrawn; exempt fields are listed with the reason; " +
 			"(2) the pending-attestations mark is set under its mutex before the attestation job's goroutine is started, for the duty's own slot; cleared by a defer at the start of the job function; cleared on every successful cancel of an attestation job; read under the lock; the shutdown wait polls exactly that mark for the current slot; " +
 			"(3) every goroutine started per element of a collection that sends its result on a channel with a plain send has a channel whose capacity is the size of that collection (or sends inside a select with a done arm): a smaller buffer leaves the later senders blocked for ever. " +
-			"Added with the third seeding round: (4) every strategy fan-out runs under a context derived from the strategy's WithTimeout/WithDeadline (followed through parameters). Added with the fourth seeding round: (1, extended) a sliding delete that depends on an earlier call's success is no evidence; (5) wait groups balance module-wide. Added with the fifth seeding round: (6) the unblinding goroutines never wait for a semaphore with a blocking Acquire; (y) C02.d, C05.e and C12.l are taken over. Added with the sixth seeding round and the false-alarm regression: (y) C18.e (the cleaner's cut-off) is taken over; (x) no epoch/slot re-typing without the slots-per-epoch factor. Added with the seventh seeding round: (1, extended) a pruning loop removes the entries that lie before its reference point. NOT decided: actual sizes over long runs, memory held by libraries, goroutines blocked inside client calls that ignore their context, timing of the shutdown wait.",
+			"Added with the third seeding round: (4) every strategy fan-out runs under a context derived from the strategy's WithTimeout/WithDeadline (followed through parameters). Added with the fourth seeding round: (1, extended) a sliding delete that depends on an earlier call's success is no evidence; (5) wait groups balance module-wide. Added with the fifth seeding round: (6) the unblinding goroutines never wait for a semaphore with a blocking Acquire; (y) C02.d, C05.e and C12.l are taken over. Added with the sixth seeding round and the false-alarm regression: (y) C18.e (the cleaner's cut-off) is taken over; (x) no epoch/slot re-typing without the slots-per-epoch factor. Added with the seventh seeding round: (1, extended) a pruning loop removes the entries that lie before its reference point. Added with the tenth seeding round: (2, extended) the pending mark is cleared only by the job's own deferred clear or on the success edge of a CancelJob. NOT decided: actual sizes over long runs, memory held by libraries, goroutines blocked inside client calls that ignore their context, timing of the shutdown wait.",
 		Technique:   "who-writes analysis of map fields with evidence search by path queries (must-pass-through, defer-aware), config-flag dependence by single-edge deletion, provenance of channel capacities through parameters, lock-set dataflow",
 		Rule:        "one obligation per subject map field (1), per mark set/clear/read site (2), per fan-out goroutine/channel pair (3)",
 		Assumptions: []string{"E3 (single-key sliding delete on an event root) assumes at least one timely head event per key step; recorded, not proved"},
